@@ -359,6 +359,18 @@ def main(argv=None):
                     break
             if new_violation or harness_error:
                 break
+    extra = None
+    if hasattr(mod, "extra_checks") and not new_violation and not harness_error and not args.only:
+        extra = mod.extra_checks(tier, seed, log)
+        for v in extra["violations"]:
+            path = write_replay(pid, v["tier"], v["harness"], v)
+            code, out = replay_external(path)
+            hh = Harness(v["harness"], None)
+            if code == EXIT_VIOLATION:
+                new_violation = (hh, v, path, out)
+            else:
+                harness_error = (hh, v, path, out)
+            break
     wall = time.time() - t_start
     rc = EXIT_OK
     if new_violation:
@@ -374,7 +386,7 @@ def main(argv=None):
         log(out.strip()[-3000:])
         rc = EXIT_HARNESS
     if not args.no_evidence:
-        write_evidence(pid, tier, seed, mod, hs, aggs, wall, rc, known_lines)
+        write_evidence(pid, tier, seed, mod, hs, aggs, wall, rc, known_lines, extra)
     vac = []
     for h in hs:
         a = aggs.get(h.name)
@@ -389,7 +401,7 @@ def main(argv=None):
     return rc
 
 
-def write_evidence(pid, tier, seed, mod, hs, aggs, wall, rc, known_lines):
+def write_evidence(pid, tier, seed, mod, hs, aggs, wall, rc, known_lines, extra=None):
     tot = Agg()
     per = {}
     vacuous = []
@@ -452,6 +464,12 @@ def write_evidence(pid, tier, seed, mod, hs, aggs, wall, rc, known_lines):
         },
         "assumptions": getattr(mod, "ASSUMPTIONS", []) + COMMON_ASSUMPTIONS,
     }
+    if extra is not None:
+        ev["coverage"]["crosshair"] = extra["evidence"]
+        ev["coverage"]["evaluations"] += extra["evaluations"]
+        ev["coverage"]["distinct_nontrivial"] += extra["nontrivial"]
+        if extra["inconclusive"]:
+            ev["coverage"]["exhaustive"] = False
     os.makedirs(os.path.join(HERE, "evidence"), exist_ok=True)
     with open(os.path.join(HERE, "evidence", "%s.json" % pid), "w") as f:
         json.dump(ev, f, indent=1, default=str)
